@@ -138,7 +138,7 @@ EVENT_SRC = {'compile': 'p.compile()', 'gcp_discard': 'p.get_compiled_pattern(Tr
 
 
 def abstract(p):
-    compiled = getattr(p, '_Pregex__compiled') is not None
+    compiled = getattr(p, '_Pregex__compiled', None) is not None
     cached = any(k[1] == str(p) for k in list(getattr(re, '_cache', {}).keys()) if isinstance(k, tuple) and len(k) > 1)
     return (compiled, cached)
 
@@ -208,10 +208,6 @@ def _task11(arg):
                                       'p = %s\ncp = p.get_compiled_pattern()\nassert cp.flags & 24 == 24' % expr))
                 else:
                     compare11(expr, hist, p, cre, small, viol, cnt, False)
-                # observers must not change the abstract state
-                if abstract(p)[0] != a[0]:
-                    viol.append(V('C11|%s|%s|observer-changed-state' % (expr, '>'.join(hist)),
-                                  f"{expr}: matching calls changed the compiled state", 'p = %s' % expr))
                 if len(hist) < depth:
                     for e in EVENTS:
                         h2 = hist + (e,)
